@@ -81,7 +81,7 @@ class Proc(object):
     __slots__ = ('pid', 'parent', 'children', 'state', 'wstatus', 'behaviour', 'argv',
                  'env', 'cwd', 'close_fds', 'shell', 'executable', 'spawn_time',
                  'death_time', 'signals', 'out_w', 'err_w', 'watcher', 'wid', 'role',
-                 'inherit_fds', 'is_worker', 'popen', 'reaped_by', 'pending_death', 'pass_fds', 'orig_parent', 'child_fds')
+                 'inherit_fds', 'is_worker', 'popen', 'reaped_by', 'pending_death', 'pass_fds', 'orig_parent', 'child_fds', 'death_seq')
 
     def __init__(self, pid):
         self.pid = pid
@@ -111,6 +111,7 @@ class Proc(object):
         self.pass_fds = ()
         self.orig_parent = None
         self.child_fds = None
+        self.death_seq = None
 
 
 class SimKernel(object):
@@ -123,6 +124,7 @@ class SimKernel(object):
         self._seq = 0
         self.spawn_log = []            # Proc, in order
         self.signal_log = []           # (t, pid, signum, via)
+        self.signal_seq = []           # event_seq of each signal_log entry
         self.call_log = []             # (t, call, pid, result)  optional
         self.record_calls = False
         self.kpoint_hook = None        # fn(callname, pid) -> None
@@ -134,6 +136,7 @@ class SimKernel(object):
         self.blocking_waits = 0
         self.counters = {}
         self.stray_real_signals = []
+        self.event_seq = 0             # global order of deaths and signal deliveries
         self.probe_preexec = False     # run preexec_fn in a real forked child and record the fd table it would exec with
 
     # ------------------------------------------------------------------
@@ -194,6 +197,8 @@ class SimKernel(object):
         p.state = ZOMBIE
         p.wstatus = wstatus
         p.death_time = CLOCK.now
+        self.event_seq += 1
+        p.death_seq = self.event_seq
         p.pending_death = False
         # children are re-parented to init: they leave children()
         for c in p.children:
@@ -222,8 +227,10 @@ class SimKernel(object):
         """A signal reaches a RUNNING process."""
         p = self.procs[pid]
         sig = int(sig)
+        self.event_seq += 1
         p.signals.append((CLOCK.now, sig, via))
         self.signal_log.append((CLOCK.now, pid, sig, via))
+        self.signal_seq.append(self.event_seq)
         if sig == 0 or p.state != RUNNING:
             return
         r = p.behaviour.reaction(sig)
